@@ -88,9 +88,14 @@ def is_linear(ty) -> bool:
 def mk_sum(rows):
     """Canonical Python representation of a sum (never a general sum with all rows empty)."""
     t = T().tys
-    if all(len(r) == 0 for r in rows):
+    if all(len(r) == 0 for r in rows) and not (_EMPTY_ROW_SUMS[0] and _EMPTY_ROW_SUMS[0].coin(1, 3, "general-unit-sum")):
         return t.UnitSum(len(rows))
     return t.Sum([list(r) for r in rows])
+
+
+# when set to the run's Choices, sums whose rows are all empty are sometimes written in their general form
+# (Tuple(), Option(), Either([], []), Sum([[], []])): the reference reader normalises them to unit sums
+_EMPTY_ROW_SUMS = [None]
 
 
 def constable(ty) -> bool:
@@ -583,6 +588,7 @@ class BuilderSim:
         self.max_row = None
         ch = ctx.ch
         t = T()
+        _EMPTY_ROW_SUMS[0] = ch if self.features.get("empty_row_sums", ch.coin(1, 2, "f-empty-row-sums")) else None
         self.max_depth = 1 + ch.draw(4, "max-depth")
         self.max_row_width = ch.draw(4, "max-row")
         kinds = ["module", "dfg", "function", "cfg", "conditional", "tailloop", "tracked"]
@@ -666,6 +672,9 @@ class BuilderSim:
         if k == 3:
             return t.FLOAT_T
         if k == 4:
+            if _EMPTY_ROW_SUMS[0] is not None and ch.coin(1, 2, "empty-row-general"):
+                self.ctx.probe("general_sum_with_empty_rows")
+                return ch.pick([t.tys.Tuple(), t.tys.Option(), t.tys.Either([], []), t.tys.Sum([[], [], []])], "which")
             return t.tys.Unit if ch.coin(1, 2, "unit") else t.tys.UnitSum(3)
         if k == 5:
             return t.STRING_T
